@@ -85,6 +85,8 @@ def run(ctx, rep):
                 ok = on == off            # PolicyNotRegistered / InvalidContextObject in both modes
             if on == 'deny':
                 ok = False
+            if off.split(':')[:2] in (['raise', 'PolicyNotAuthorized'], ['raise', 'Custom'], ['raise', 'InvalidScope']):
+                ok = False          # with do_raise off (also when the argument is left out) a denial is returned, not raised
             if not ok:
                 rep.fail(key, 'do_raise off gives %s but do_raise on gives %s (rule %r, creds %r, exc %r)'
                          % (off, on, q['rule'], q['creds'], q['exc']), {'scenario': sc, 'query': q})
